@@ -9,6 +9,7 @@ mod codecs;
 mod cramfmt;
 mod dbgfmt;
 mod forkrun;
+mod ledger;
 mod minimal;
 mod mutate;
 mod probe;
@@ -181,6 +182,19 @@ fn seeded_read(ctx: &Ctx, w: &World, m: u64) -> (usize, seeded::Mutated) {
     (pick, mu)
 }
 
+/// CPU budget of a probe whose entry point (`<kind>:<api>`, `codec:..`, `query:..`) already hung `ledger::FULL`
+/// times in this run. Checked at the end of the run against 200x the slowest valid input of the kind.
+fn short_budget_s(entry: &str, quick: bool) -> f64 {
+    let kind = entry.split(':').next().unwrap_or("");
+    let slow_kind = matches!(kind, "vcf" | "vcfgz" | "bcf" | "bcfraw");
+    match (quick, slow_kind) {
+        (true, true) => 8.0,
+        (true, false) => 3.0,
+        (false, true) => 70.0,
+        (false, false) => 30.0,
+    }
+}
+
 fn panic_violation(p: &guard::PanicInfo, what: &str, wit: Value) -> (String, String, Value) {
     let sig = sigs::site_sig(p);
     let sig = if cfg!(debug_assertions) && !sigs::known_rel().contains(&format!("panic:{sig}")) { format!("profile=chk:panic:{sig}") } else { format!("panic:{sig}") };
@@ -192,7 +206,8 @@ fn run_case(ctx: &Ctx, w: &World, idx: u64, c: &Case) -> CaseOut {
     let wall0 = std::time::Instant::now();
     let budget = ctx.param("cpu_budget_s").and_then(|s| s.parse().ok()).unwrap_or(if ctx.quick() { 30.0 } else { 90.0 });
     forkrun::PROBE_BUDGET_S.store(budget as u64, Relaxed);
-    let limits = Limits { cpu_budget_s: budget, rlimit_as: ctx.budget("rlimit_as_mib", 6144, 6144) << 20 };
+    let quick = ctx.quick();
+    let limits = Limits { cpu_budget_s: budget, short_budget_s: short_budget_s("", quick), rlimit_as: ctx.budget("rlimit_as_mib", 6144, 6144) << 20 };
     let errfile = ctx.work.join(format!("batch-{}-{idx}.stderr", std::process::id()));
     // one generic runner: probe k of the case -> (slot, Probe, description)
     let run_generic = |n: usize, slot_names: Vec<String>, prefix: String, make: &dyn Fn(usize) -> (usize, Probe, String)| -> (String, Vec<String>, forkrun::BatchOut) {
@@ -202,6 +217,20 @@ fn run_case(ctx: &Ctx, w: &World, idx: u64, c: &Case) -> CaseOut {
             let Ok((slot, p, what)) = made else {
                 return ProbeOut { slot: 46, oc: forkrun::OC_FATAL, violation: Some(("harness:probe-generator-panicked".into(), format!("the generator of probe {k} panicked (harness defect, not a C15 finding)"), Value::Null)) };
             };
+            // the run-wide hang ledger bounds what a defect that makes many probes hang can cost
+            let entry = p.entry();
+            match ledger::decide(&entry) {
+                ledger::Decision::Skip => return ProbeOut { slot, oc: forkrun::OC_SKIPPED, violation: None },
+                ledger::Decision::Short => {
+                    let s = short_budget_s(&entry, quick);
+                    if let Some(sh) = alloc::shared() {
+                        sh.short_budget.store(1, Relaxed);
+                    }
+                    forkrun::PROBE_BUDGET_S.store(s as u64, Relaxed);
+                    forkrun::set_timer(s);
+                }
+                ledger::Decision::Normal => forkrun::PROBE_BUDGET_S.store(budget as u64, Relaxed),
+            }
             match p.run(w) {
                 Ok(oc) => ProbeOut { slot, oc, violation: None },
                 Err(pi) => ProbeOut { slot, oc: forkrun::OC_PANIC, violation: Some(panic_violation(&pi, &format!("{}; {what}", p.describe()), json!({"probe": p.to_json(20_000), "how": what}))) },
@@ -227,6 +256,9 @@ fn run_case(ctx: &Ctx, w: &World, idx: u64, c: &Case) -> CaseOut {
                     let dt = ((guard::thread_cpu_s() - t0) * 1e6) as u64;
                     if let Some(sh) = alloc::shared() {
                         sh.max_valid_cpu_us.fetch_max(dt, Relaxed);
+                        if let Some(ki) = corpus::Kind::ALL.iter().position(|x| *x == it.item.kind) {
+                            sh.max_valid_by_kind[ki.min(alloc::KINDS - 1)].fetch_max(dt, Relaxed);
+                        }
                         if api.is_none() {
                             // slowest Debug call on a valid record
                             let d = sh.max_debug_call_us.load(Relaxed);
@@ -404,8 +436,17 @@ fn fold_batch(o: &mut CaseOut, prefix: &str, slot_names: &[String], b: forkrun::
         }
     }
     let resource: u64 = b.matrix.iter().map(|r| r[forkrun::OC_RESOURCE]).sum();
-    // probes that ended in a refused allocation are not evaluations
-    o.evaluations = total - resource;
+    let skipped: u64 = b.matrix.iter().map(|r| r[forkrun::OC_SKIPPED]).sum();
+    // probes that ended in a refused allocation, and probes that were not run, are not evaluations
+    o.evaluations = total - resource - skipped;
+    o.count("probes_skipped_after_repeated_hang", skipped);
+    for (ki, us) in b.max_valid_by_kind.iter().enumerate() {
+        if *us > 0 {
+            if let Some(k) = corpus::Kind::ALL.get(ki) {
+                o.max(&format!("max_valid_case_cpu_us_by_kind[{}]", k.name()), *us);
+            }
+        }
+    }
     o.count("batch_process_forks", b.forks);
     o.count("allocations_observed_ge_observe_threshold", b.observed_big);
     o.count("allocations_refused_resource_limit", resource);
@@ -431,6 +472,13 @@ fn main() {
     let ctx = vcore::cases::replay_request(&ctx).map(|r| r.1).unwrap_or(ctx);
     sigs::install_hook();
     sigs::load_known(&ctx);
+    if std::env::var("VMON_CHILD").is_err() && ctx.replay.is_none() {
+        // the parent of a run starts with an empty hang ledger
+        let _ = std::fs::remove_file(ctx.work.join("hang-ledger.bin"));
+    }
+    if ctx.param("mode").is_none() {
+        ledger::open(&ctx.work);
+    }
     // load the symbol tables once per process: forked batch processes inherit the cache (a panic located in a
     // dependency is resolved through a captured backtrace)
     let _ = std::backtrace::Backtrace::force_capture().to_string();
@@ -509,7 +557,7 @@ fn main() {
         println!("{}", p.describe());
         if ctx.param("catch").is_some() {
             // under the full monitor (forked, CPU timer, allocation limits), exactly as in a run
-            let limits = Limits { cpu_budget_s: 20.0, rlimit_as: 6144 << 20 };
+            let limits = Limits { cpu_budget_s: 20.0, short_budget_s: 3.0, rlimit_as: 6144 << 20 };
             let errfile = ctx.work.join(format!("probe-{}.stderr", std::process::id()));
             let run_one = |_k: usize| -> ProbeOut {
                 match p.run(&w) {
@@ -561,6 +609,32 @@ fn main() {
         if ctx.param("only").is_none() && ctx.param("nodet").is_none() {
             rep.floor("evaluations", rep.evaluations, 100_000);
             rep.floor("valid items read to END", rep.counters.get("outcome_by_part[valid|end]").copied().unwrap_or(0), w.items.len() as u64);
+        }
+        // what the hang ledger did: per entry point hangs / probes run under the short budget / probes skipped
+        let mut entries: Vec<String> = vec![];
+        for k in corpus::Kind::ALL {
+            for a in ["primary", "eager", "indexer", "debug-fmt"] {
+                entries.push(format!("{}:{a}", k.name()));
+            }
+        }
+        entries.extend(codecs::CODECS.iter().map(|c| format!("codec:{c}")));
+        entries.extend(queries::TARGETS.iter().map(|t| format!("query:{t}")));
+        for e in &entries {
+            let (hangs, short, skipped) = ledger::stats(e);
+            if hangs > 0 {
+                rep.count(&format!("hangs_under_the_probe_budget[{e}]"), hangs);
+                rep.count(&format!("probes_run_under_short_budget_after_repeated_hang[{e}]"), short);
+                rep.count(&format!("probes_skipped_after_repeated_hang[{e}]"), skipped);
+                let sb = short_budget_s(e, ctx.quick());
+                let kind = e.split(':').next().unwrap_or("");
+                let valid_ms = rep.counters.get(&format!("max_valid_case_cpu_us_by_kind[{kind}]")).copied().unwrap_or(0) as f64 / 1000.0;
+                if short > 0 && valid_ms > 0.0 && sb * 1000.0 < 200.0 * valid_ms {
+                    rep.inconclusive.push(format!("short budget {sb} s of {e} is less than 200x the slowest valid {kind} input ({valid_ms:.1} ms): probes that ended under it are not conclusive"));
+                }
+                if skipped > 0 {
+                    rep.inconclusive.push(format!("{skipped} probes of {e} were not run because the entry point had hung {hangs} times in this run (not counted as evaluations)"));
+                }
+            }
         }
         let refused = rep.counters.get("allocations_refused_resource_limit").copied().unwrap_or(0);
         if refused > 0 {
